@@ -12,9 +12,9 @@ LEVEL = 'other'
 TECHNIQUE = 'abstract interpretation of the conversion helpers (py and pyx twins) with polynomial identity testing of f(g(x)) = x and twin agreement (constants compared as exact rationals); ownership lint over the whole package; orbit mutators interpreted on a symbolic orbit object and the resulting stores checked for Kepler consistency, with the real world_signature_to_index interpreted on a star + host + two moons graph; histories in which a mass changes and the same value is sent again (equality short-cuts)'
 LEVEL_TEXT = ('Inverse pairs and twin agreement are exact real-number identities for all positive inputs; the orbit clause is decided for every public mutator path by interpreting the '
               'mutator on a symbolic orbit and checking the three stored Kepler quantities against each other, plus a who-may-write rule over all modules.')
-LEVEL_NOTE = ('Trusted: front-ends, interpreter, real algebra (rounding error of the inverse pairs is not decided). scipy.constants.G is read from the installed scipy source text (external).')
+LEVEL_NOTE = ('Trusted: front-ends, interpreter, real algebra; the rounding error of the inverse pairs is bounded to first order by an operation count (R17.7), not to the last ulp. scipy.constants.G is read from the installed scipy source text (external).')
 EXPLANATION = ('R17.1 inverse pairs (py and pyx); R17.2 py twin == pyx twin incl. constants; R17.3 only OrbitBase methods store the Kepler lists, property setters raise; '
-               'R17.4 after every mutator the stored (a, n, P) of that world satisfy Kepler III with (host mass, world mass) and P = 2 pi / n / 86400, or are all cleared, setters write exactly the designated slot and getters read the slot the setters write; R17.5 no in-place update of arguments.')
+               'R17.4 after every mutator the stored (a, n, P) of that world satisfy Kepler III with (host mass, world mass) and P = 2 pi / n / 86400, or are all cleared, setters write exactly the designated slot and getters read the slot the setters write; R17.5 no in-place update of arguments; R17.7 every round trip is built from well-conditioned operations only and its first-order rounding bound K u has K <= 16 (K recorded in the evidence).')
 EXPLANATION += ' R17.6 the array twin: every interpreted call repeated with array arguments (mutable cells) returns the scalar values element for element and leaves the arguments intact.'
 
 PAIRS = (('m2Au', 'Au2m'), ('rads2days', 'days2rads'), ('sec2myr', 'myr2sec'), ('orbital_motion2semi_a', 'semi_a2orbital_motion'))
@@ -69,6 +69,16 @@ def run(chk):
             v2 = call(mod, ga, [call(mod, fa, [x] + extra)] + extra)
             eq('R17.1', f'{lab}: {fa}({ga}(x)) == x', v1, x, mod.where(need_func(mod, fa)))
             eq('R17.1', f'{lab}: {ga}({fa}(x)) == x', v2, x, mod.where(need_func(mod, ga)))
+            # "to rounding": the round trip is a composition of products, quotients, roots and sums of positive terms only (no cancellation, no exp / log of the input),
+            # so its relative error is at most K u to first order, K counted on the extracted expression
+            from .common import rounding_count
+            for comp, val in ((f'{fa}({ga}(x))', v1), (f'{ga}({fa}(x))', v2)):
+                K_ = rounding_count(X.lift(val))
+                ok = K_ is not None and K_ <= 16
+                chk.ob('R17.7', f'{lab}: {comp} returns x to rounding: well-conditioned operations only, first-order error bound K u with K <= 16', ok,
+                       ('the expression contains a difference / a sum of terms of unknown sign / a transcendental function of the input: its rounding error is not bounded relative to x'
+                        if K_ is None else f'K = {float(K_):.3g}'), mod.where(need_func(mod, fa)), key=f'R17.7|{lab}|{comp}', method='first-order rounding count over the extracted expression')
+                if K_ is not None: chk.note_analysed('rounding bounds', f'{lab} {comp}: K = {float(K_):.3g}')
     # twins
     for pair in PAIRS:
         for f in pair:
@@ -287,7 +297,7 @@ def run(chk):
             eq('R17.4', f'OrbitBase.{wname}(stellar={stellar}) == conversions.{pyname}(value, host mass, world mass)', r, ref, mo.where(ms[wname]))
     from .common import inplace_lint
     inplace_lint(chk, repo, 'R17.5', ['TidalPy/utilities/conversions/conversions.py'])
-    chk.floor('R17.5', 1)
+    chk.floor('R17.5', 1); chk.floor('R17.7', 16)
     twin.finish(floor=6)
     chk.floor('R17.1', 26); chk.floor('R17.2', 17); chk.floor('R17.3', 5); chk.floor('R17.4', 134)
     chk.assume('all inputs positive; cube and square roots are the real positive roots')
